@@ -859,7 +859,11 @@ def simple_nodes(run, model, rule="C06.node-semantics"):
             alts = t[1] if t[0] == "phi" else (t,)
             return all(a == ("const", "None") or visit_arg(a) == ("attr", NODE, attr) for a in alts) and any(visit_arg(a) == ("attr", NODE, attr) for a in alts)
         ok = len(rts) >= 1 and all(t[0] == "call" and t[1] == ("builtin", "slice") and len(t[2]) == 3 and part_ok(t[2][0], "lower") and part_ok(t[2][1], "upper") and part_ok(t[2][2], "step") for t in rts)
-        run.check(ok, rule, fi.qual, "slice(lower, upper, step)", "the slice is not built from lower, upper, step in that order: %s" % [show(t, 100) for t in rts], fi.loc())
+        if not ok and any(t[0] == "call" and t[1] == ("builtin", "slice") and any(a[0] == "star" for a in t[2]) for t in rts):
+            run.undecided(rule, fi.qual, "the parts of the slice are collected in a list and splatted (`slice(*parts)`); the rule reads `slice(lower, upper, step)` only")
+            ok = None
+        if ok is not None:
+            run.check(ok, rule, fi.qual, "slice(lower, upper, step)", "the slice is not built from lower, upper, step in that order: %s" % [show(t, 100) for t in rts], fi.loc())
     # NamedExpr: value of node.value, bound to the target's name for later lookups
     fi, flow, rts = ret_terms("visit_NamedExpr")
     if fi is not None:
@@ -909,6 +913,7 @@ def lambda_location(run, model, rule="C07.text"):
     run.saw(flow)
     CALL = ("attr", ("param", fi.params[0]), "node")
     sources = []
+    filtered_generator = False
     for lst in flow.node_defs.values():
         for d in lst:
             if d.kind == "assign" and d.value is not None:
@@ -917,6 +922,18 @@ def lambda_location(run, model, rule="C07.text"):
                     sources.append(("positional", d))
                 elif t[0] == "attr" and t[2] == "value" and t[1][0] == "elem" and t[1][1] == ("attr", CALL, "keywords"):
                     sources.append(("keyword", d))
+                else:
+                    # ``next((kw.value for kw in call.keywords if kw.arg == "condition"), None)``
+                    e = d.value
+                    if isinstance(e, ast.Call) and isinstance(e.func, ast.Name) and e.func.id == "next" and e.args and isinstance(e.args[0], ast.GeneratorExp) and len(e.args[0].generators) == 1:
+                        g = e.args[0]
+                        gen = g.generators[0]
+                        if isinstance(gen.target, ast.Name) and strip_sites(flow.term(gen.iter, d.node)) == ("attr", CALL, "keywords") and isinstance(g.elt, ast.Attribute) and g.elt.attr == "value" and isinstance(g.elt.value, ast.Name) and g.elt.value.id == gen.target.id:
+                            v = gen.target.id
+                            named = len(gen.ifs) == 1 and isinstance(gen.ifs[0], ast.Compare) and len(gen.ifs[0].ops) == 1 and isinstance(gen.ifs[0].ops[0], ast.Eq) and src_of(gen.ifs[0].left) == v + ".arg" and isinstance(gen.ifs[0].comparators[0], ast.Constant) and gen.ifs[0].comparators[0].value == "condition"
+                            sources.append(("keyword" if named else "keyword-unfiltered", d))
+                            if named:
+                                filtered_generator = True
     kinds = sorted(k for k, _ in sources)
     bad = None
     if kinds != ["keyword", "positional"]:
@@ -926,7 +943,7 @@ def lambda_location(run, model, rule="C07.text"):
         kw = [d for k, d in sources if k == "keyword"][0]
         # the keyword branch is guarded by `keyword.arg == "condition"`
         want = ("op", "cmp:Eq", (("attr", ("elem", ("attr", CALL, "keywords")), "arg"), ("const", "'condition'")))
-        ok = any(strip_sites(a) == want and pol and gg.necessary([flow.cfg.entry], [kw.node.id], (a, True)) for (nid, k), (kn, atoms) in gg.edge_facts.items() for a, pol in kn)
+        ok = filtered_generator or any(strip_sites(a) == want and pol and gg.necessary([flow.cfg.entry], [kw.node.id], (a, True)) for (nid, k), (kn, atoms) in gg.edge_facts.items() for a, pol in kn)
         if not ok:
             bad = "a keyword argument other than `condition` (e.g. a lambda given as `error=`) can be taken for the condition"
         pos = [d for k, d in sources if k == "positional"][0]
